@@ -11,6 +11,7 @@ mod dump;
 mod c02;
 mod c05;
 mod rulegen;
+mod probe;
 
 use std::path::PathBuf;
 
@@ -40,6 +41,7 @@ fn main() {
     }
   }
   match args[1].as_str() {
+    "probe" => probe::run(&args[2..]),
     "c20" => c20::run(&o),
     "c07" => c07::run(&o),
     "c02" => c02::run_c02(&o),
